@@ -283,6 +283,9 @@ Family(const std::string &f, int lk)
     } else if (f == "prep2") {  // C13
       for (auto &p : {"P", "Pm", "Pa", "PP"})
         for (auto &w : {"X", "Xvp", "U", "D", "S", "SIX", "P", "OX", "DU"}) out.push_back(Sec(p) + " | " + Sec(w));
+      for (auto &p : {"P", "PP"})
+        for (auto &w1 : {"X", "D", "U"})
+          for (auto &w2 : {"S", "SIX", "OS"}) out.push_back(Sec(p) + " | " + Sec(w1) + " " + Sec(w2));
       for (auto &p : {"P", "Pm"})
         for (auto &w : {"X", "D", "U"}) {
           out.push_back(Sec(p) + " | " + Sec(w) + " " + Sec(w));
